@@ -1176,7 +1176,47 @@ def _end_tags_from_source(cx: Ctx, rep: Report, level, funcs) -> None:
         raise AnchorMissing("Tree.enclose not found")
     ecfg = get_cfg(enc)
     closers = sets(enc, lambda v: isinstance(v, ast.Constant) and v.value is True)
-    good = [c for c in closers if any(pol and isinstance(t, ast.Compare) and isinstance(t.ops[0], ast.Eq) and any(isinstance(x, ast.Attribute) and x.attr == "name" for x in ast.walk(t)) for t, pol in ecfg.guards(c))]
+    def name_matched(c: ast.Assign) -> bool:
+        """the element whose flag is set has the end tag's name: by a dominating `X.name == name` test, or because X was
+        selected by a generator/comprehension whose filter holds that test (``next((e for e in ... if e.name == name), None)``)"""
+        from ..flow import facts
+
+        def is_name_eq(t, var: str | None) -> bool:
+            return isinstance(t, ast.Compare) and len(t.ops) == 1 and isinstance(t.ops[0], ast.Eq) and any(isinstance(x, ast.Attribute) and x.attr == "name" and (var is None or (isinstance(x.value, ast.Name) and x.value.id == var)) for x in ast.walk(t))
+
+        obj = c.targets[0].value
+        if any(pol and is_name_eq(t, obj.id if isinstance(obj, ast.Name) else None) for t, pol in ecfg.guards(c)):
+            return True
+        if not isinstance(obj, ast.Name):
+            return False
+        stores = [x for x in enc.local_nodes() if isinstance(x, ast.Name) and x.id == obj.id and isinstance(x.ctx, ast.Store)]
+        if len(stores) != 1:
+            return False
+        st = stores[0]
+        p_ = parent(st)
+        idx = None
+        if isinstance(p_, ast.Tuple) and isinstance(parent(p_), ast.Assign):
+            idx, asg = p_.elts.index(st), parent(p_)
+        elif isinstance(p_, ast.Assign):
+            asg = p_
+        else:
+            return False
+        v = asg.value
+        if isinstance(v, ast.Call) and isinstance(v.func, ast.Name) and v.func.id == "next" and v.args:
+            v = v.args[0]
+        if not isinstance(v, (ast.GeneratorExp, ast.ListComp)) or len(v.generators) != 1:
+            return False
+        elt = v.elt
+        if idx is not None:
+            if not (isinstance(elt, ast.Tuple) and idx < len(elt.elts)):
+                return False
+            elt = elt.elts[idx]
+        if not isinstance(elt, ast.Name):
+            return False
+        conds = [f_ for cnd in v.generators[0].ifs for f_ in facts(cnd, True)]
+        return any(pol and is_name_eq(t, elt.id) for t, pol in conds)
+
+    good = [c for c in closers if name_matched(c)]
     if good:
         rep.ok("C17.R1", k, ph.site(good[0]))
     else:
@@ -3167,6 +3207,19 @@ def mutants(corpus: Corpus):
         cst = find_stmt(nt_, lambda s_: isinstance(s_, ast.Assign) and isinstance(s_.targets[0], ast.Attribute) and s_.targets[0].attr == "closed")
         if cst is not None:
             add("c17-start-tag-counts-as-closed", "C17.R1", splice(psrc, cst, "pass"), "opens an unclosed element", rel_=phm.rel)
+    enc_ = corpus.cls("parsers.parse_html:Tree").methods.get("enclose")
+    if enc_ is not None:
+        cst = find_stmt(enc_, lambda s_: isinstance(s_, ast.Assign) and isinstance(s_.targets[0], ast.Attribute) and s_.targets[0].attr == "closed")
+        if cst is not None:
+            add("c17-end-tag-never-closes-element", "C17.R1", splice(psrc, cst, "pass"), "the matching end tag closes the element", rel_=phm.rel)
+            gif = parent(cst)
+            if isinstance(gif, ast.If) and cst in gif.body and isinstance(parent(gif), ast.For):
+                seg = ast.get_source_segment(psrc, cst)
+                ind = " " * gif.col_offset
+                lines = psrc.splitlines(keepends=True)
+                lines[cst.lineno - 1] = lines[cst.lineno - 1].replace(seg, "pass")
+                lines.insert(gif.lineno - 1, ind + seg + "\n")
+                add("c17-every-scanned-element-marked-closed", "C17.R1", "".join(lines), "the matching end tag closes the element", rel_=phm.rel, note="flag set outside the name match")
     if flt.stmt is not None:
         fl = arg_or_kw(flt.compile_call, 1, "flags")
         if isinstance(fl, ast.BinOp) and "ASCII" in unparse(fl):
